@@ -264,7 +264,7 @@ def _life(c, prop, pushes):
         if not t:
             raise vf.Inconclusive('witness run produced no schedule:\n' + w['out'][-1500:])
         behs.append(t)
-    nb = 400 if quick else 4000
+    nb = 400 if quick else 2500
     s = c.tlc('Connect', 'ConnLifeSim', sim_cfg, simulate=nb, depth=40, timeout=1500)
     if not s['ok']:
         raise vf.Inconclusive('simulation failed: %s\n%s' % (s['error'], s['out'][-3000:]))
@@ -323,7 +323,7 @@ _note43 = ('Bounds: streams of 0..3 (quick) / 0..6 (thorough) publications, limi
            'HistoryMaxPublicationLimit {0,2} / {0,1,2,4}; presence with <= 3 / 4 subscribers. Exhaustive within the bounds. Trusted: TLC, lib/tlaparse.py, harness comparison code.')
 _note36 = ('Bounds: exhaustive 4 s / 5 actions (quick), 6 s / 7 actions (thorough) over 12 configurations; replay 400 / 3000 simulated behaviours of <= 5 s and <= 8 actions. '
            'Ping 1 s, pong timeout 0.4 s, grace delays 1 s, expiries 1-2 s, refresh extends by 2 s. Trusted: TLC, lib/tlaparse.py, harness TimerScheduler and monitor code, wall clock.')
-_note8 = ('Bounds: 2 connections, one connect-time server-side subscription, <= 2 (quick) / 3 (thorough) environment actions exhaustively with arbitrarily delayed closers; replay 400 / 4000 simulated '
+_note8 = ('Bounds: 2 connections, one connect-time server-side subscription, <= 2 (quick) / 3 (thorough) environment actions exhaustively with arbitrarily delayed closers; replay 400 / 2500 simulated '
           'behaviours of <= 40 steps with <= 5 environment actions. Trusted: TLC, lib/tlaparse.py, harness gates and monitor code.')
 _note11 = _note8 + ' Dictionary compression: all scenarios with <= 2 (quick) / 3 (thorough) frames after the connect reply x 3 closers + close during OnConnecting.'
 META = {
